@@ -95,6 +95,10 @@ theorem cancelKindFor_down {R : World → Prop} (hR : DownClosed R) (w : World) 
   unfold cancelKindFor
   exact foldl_inv R _ (fun w x hw => evCancel_down hR w x hw) _ _ h
 
+theorem cancelUserAll_down {R : World → Prop} (hR : DownClosed R) (w : World) (h : R w) : R (cancelUserAll w).1 := by
+  unfold cancelUserAll
+  exact foldl_inv R _ (fun w x hw => evCancel_down hR w x hw) _ _ h
+
 /-- "at most as many `P`-events as in `w0`" is such a predicate, if `aEvent` wake-ups are not `P`-events -/
 theorem cntLe_downClosed (P : Item → Bool) (w0 : World) (hP : ∀ s c, P ⟨aEvent, s, c, 0⟩ = false) :
     DownClosed fun w => cnt P w ≤ cnt P w0 where
@@ -250,6 +254,10 @@ theorem ec_cancelKindFor (hA : A aEvent = true) (w : World) (z : Pid) (act : Nat
   unfold cancelKindFor
   exact foldl_inv R _ (fun w x hw => ec_evCancel hR hA w x hw) _ _ h
 
+theorem ec_cancelUserAll (hA : A aEvent = true) (w : World) (h : R w) : R (cancelUserAll w).1 := by
+  unfold cancelUserAll
+  exact foldl_inv R _ (fun w x hw => ec_evCancel hR hA w x hw) _ _ h
+
 theorem ec_guardSignal (hA : A aRes = true) (fuel : Nat) (w : World) (g : Nat) (h : R w) : R (guardSignal fuel w g) :=
   guardSignal_inv R (fun w m h => ec_fail hR w m h) (fun _ _ _ h => hR.ev_only h rfl)
     (fun _ _ _ _ h => hR.sched _ _ _ _ _ _ hA h) fuel w g h
@@ -400,6 +408,7 @@ macro_rules
               | apply ec_evCancel $hR (AllButProc.event $hA)
               | apply ec_cancelAllFor $hR (AllButProc.event $hA)
               | apply ec_cancelKindFor $hR (AllButProc.event $hA)
+              | apply ec_cancelUserAll $hR (AllButProc.event $hA)
               | apply ec_guardSignal $hR (AllButProc.res $hA)
               | apply ec_signal $hR (AllButProc.res $hA)
               | apply ec_guardWithdraw $hR (AllButProc.event $hA) (AllButProc.res $hA)
@@ -546,6 +555,7 @@ macro_rules
               | apply ec_signal $hR (AllButProc.res $hA)
               | apply ec_guardWaitLeave $hR (AllButProc.event $hA) (AllButProc.res $hA)
               | apply ec_cancelKindFor $hR (AllButProc.event $hA)
+              | apply ec_cancelUserAll $hR (AllButProc.event $hA)
               | apply ec_recordPool $hR
               | apply ec_recordPQ $hR
               | apply ec_setPoolInUse $hR
